@@ -353,7 +353,9 @@ def real_parse(text: str):
         pr = pyparser.Parser(fdef, info, parent_scope=pyparser.DummyScope({}, {}), as_func=True)
         u = pr.result()
         return uast_to_gallina(u.body[0].rhs), None
-    except (SyntaxError, pyparser.ParseError) as e:
+    except Unsupported:
+        raise
+    except Exception as e:  # SyntaxError, ParseError, or whatever evaluating a non-expression raises
         return None, "%s: %s" % (type(e).__name__, str(e)[:120])
 
 
@@ -652,7 +654,9 @@ def schedule(p, rng, cfgs, nops):
             # delete_buffer is left out: it removes the allocation of a buffer that is written and then read
             # (Check_IsDeadAfter only asks whether the OLD value is dead), which leaves an ill-formed procedure --
             # a scheduling defect reported separately, not a matter of printing
-            cands = [c for c in sched.candidates(p, rng, cfgs) if c[0] != "delete_buffer"]
+            # inline_assign likewise (open known finding of C01: it substitutes by name, also into loop indices and
+            # call arguments)
+            cands = [c for c in sched.candidates(p, rng, cfgs) if c[0] not in ("delete_buffer", "inline_assign")]
             cands += colliding_name_ops(p, rng)
         except Exception as e:  # enumeration itself failed: keep what we have
             break
@@ -835,6 +839,20 @@ def unbound_uses(ir):
     return bad
 
 
+def has_empty_block(ir):
+    """a procedure / loop / branch body without any statement (e.g. what unroll_loop leaves of a zero-trip loop)"""
+    def walk(ss):
+        if not ss:
+            return True
+        for st in ss:
+            if isinstance(st, LoopIR.For) and walk(st.body):
+                return True
+            if isinstance(st, LoopIR.If) and (walk(st.body) or (st.orelse and walk(st.orelse))):
+                return True
+        return False
+    return walk(ir.body)
+
+
 CMP = ("<", ">", "<=", ">=", "==")
 
 
@@ -952,8 +970,9 @@ def norm_msg(cls, msg):
 BOOL_MEM = re.compile(r"(\b[A-Za-z_]\w*: bool) @ \w+")
 
 
-def round_trip(p: Procedure, text: str):
-    """-> dict(status=ok|skip|reject|text, ...)"""
+def round_trip(p: Procedure, text: str, repair_bool=False):
+    """-> dict(status=ok|skip|reject|text, ...); repair_bool: drop the `@ MEM` the printer puts after bool arguments
+    (finding print:bool-argument-memory) so that the rest of the text can still be checked"""
     ir = p._loopir_proc
     callees, seen = [], set()
     callees_of(ir, callees, seen)
@@ -967,14 +986,14 @@ def round_trip(p: Procedure, text: str):
     parts = [RT_HEADER]
     injected_callees = 0
     if len(set(names)) != len(names):
-        # two different callees share a name: they cannot both be defined from text; put the objects in scope
-        for c in callees:
-            inject[str(c.name)] = Procedure(c)
-        injected_callees = len(callees)
-    else:
-        for c in callees:
-            parts.append(deco(c) + str(Procedure(c)) + "\n")
-    parts.append(deco(ir) + text + "\n")
+        # two different procedures are shown under one name (e.g. two extract_subproc results called sub_x_1): the
+        # text cannot say which is which, and they cannot both be put in scope under that name
+        dup = sorted(n for n in set(names) if names.count(n) > 1)
+        return {"status": "skip", "why": "two different procedures are both called %s" % dup[0][:12].rstrip("0123456789")}
+    fix = (lambda t: BOOL_MEM.sub(r"\1", t)) if repair_bool else (lambda t: t)
+    for c in callees:
+        parts.append(deco(c) + fix(str(Procedure(c))) + "\n")
+    parts.append(deco(ir) + fix(text) + "\n")
     src = "\n".join(parts)
     mod, cls, msg = load_with_scope(src, inject)
     if mod is None:
@@ -1013,10 +1032,29 @@ def main():
             emit({"t": "export_error", "where": "expr", "detail": str(e)})
     for k in range(n_parse):
         toks = rand_tokens(rng, rng.randint(1, 4))
+        malformed = rng.random() < 0.25
+        if malformed:
+            # one random edit: mostly no expression any more; the model must say None exactly when the real front
+            # end refuses.  Two accepted-by-Python forms the printer never writes are outside the model: a trailing
+            # comma in an index list and indexing a parenthesised name
+            toks = list(toks)
+            j = rng.randrange(len(toks) + 1)
+            r = rng.random()
+            alphabet = VARS[:3] + ["1", "(", ")", "[", "]", ",", "-", "+", "*", "<", "and", "or", "=="]
+            if r < 0.4 and toks:
+                del toks[min(j, len(toks) - 1)]
+            elif r < 0.8:
+                toks.insert(j, rng.choice(alphabet))
+            elif toks:
+                toks[min(j, len(toks) - 1)] = rng.choice(alphabet)
+            joined = " ".join(toks)
+            if not toks or ", ]" in joined or ") [" in joined:
+                continue
         text = " ".join(toks)
         try:
             tree, err = real_parse(text)
-            emit({"t": "parse", "id": k, "toks": toks_to_gallina(toks), "text": text, "parsed": tree, "err": err})
+            emit({"t": "parse", "id": k, "toks": toks_to_gallina(toks), "text": text, "parsed": tree, "err": err,
+                  "malformed": malformed})
         except Unsupported as e:
             emit({"t": "export_error", "where": "parse", "detail": str(e)})
 
@@ -1115,7 +1153,8 @@ def main():
                 continue
             except Exception as e:
                 if "Yapf" in type(e).__name__ or isinstance(e, AssertionError):
-                    emit({"t": "finding", "key": "print:unprintable:%s" % type(e).__name__,
+                    emit({"t": "finding", "key": ("print:empty-body:unprintable" if has_empty_block(ir) else
+                                                  "print:unprintable:%s" % type(e).__name__),
                           "what": "str(procedure) raises", "replay": {"module_src": src, "ops_applied": applied,
                                                                        "error": str(e)[:300]}})
                     continue
@@ -1142,12 +1181,12 @@ def main():
             try:
                 rt = with_timeout(30, lambda: round_trip(p, text))
                 repaired = None
-                if rt["status"] == "reject" and "size types should not be annotated" in (rt["msg"] or "") and BOOL_MEM.search(text):
-                    emit({"t": "finding", "key": "print:roundtrip-reject:ParseError:bool-argument-printed-with-memory",
+                if rt["status"] == "reject" and "size types should not be annotated" in (rt["msg"] or "") and BOOL_MEM.search(rt["src"]):
+                    emit({"t": "finding", "key": "print:bool-argument-memory:reject",
                           "what": "a bool argument is printed as `b: bool @ DRAM`, which the parser rejects",
                           "replay": dict(replay, error=rt["msg"][-300:], roundtrip_src=rt["src"])})
-                    repaired = BOOL_MEM.sub(r"\1", text)
-                    rt = round_trip(p, repaired)
+                    repaired = True
+                    rt = with_timeout(30, lambda: round_trip(p, text, repair_bool=True))
                     bump("roundtrip_retried_without_bool_mem")
                 if rt["status"] == "skip":
                     bump("roundtrip_skipped")
@@ -1158,9 +1197,15 @@ def main():
                     bump("procedures_with_comparison_chain")
                 if rt["status"] == "reject":
                     bump("roundtrip_rejected")
-                    key = "print:roundtrip-reject:%s:%s" % (rt["cls"], norm_msg(rt["cls"], rt["msg"] or ""))
+                    msg = rt["msg"] or ""
+                    phase = ("parse" if rt["cls"] in ("ParseError", "SyntaxError") else
+                             "typecheck" if "during typechecking" in msg else
+                             "static-check" if rt["cls"] == "TypeError" else rt["cls"])
+                    key = "print:roundtrip-reject:%s:%s" % (phase, norm_msg(rt["cls"], msg))
                     if chain:
                         key = "print:comparison-chain:reject"
+                    elif has_empty_block(ir):
+                        key = "print:empty-body:reject"
                     emit({"t": "finding", "key": key, "what": "the real front end rejects the printed procedure",
                           "replay": dict(replay, error=(rt["msg"] or "")[-500:], roundtrip_src=rt["src"])})
                     continue
